@@ -67,6 +67,11 @@ def generate(seed, tier, index):
         # one fault on the output side, placed where the statement still has something to say: Ctrl-C lands inside gdb.write of
         # a "Closed" notice (stop() raises, gdb halts, the user continues); later connections at that address must still work
         cfg['ctrl_c_in_closed_notice'] = rng.randint(0, 3)
+    elif rng.random() < 0.12 and not (tier == 'thorough' and index < 16):
+        # one fault on the input side: the k-th gdb.selected_thread() call raises (Ctrl-C arriving during the call, or the
+        # thread having just exited).  The event it hits is lost - what the statement still demands afterwards is judged by
+        # judge_after_input_fault(): a libwayland connection is announced once and closed only by its destruction
+        cfg['fault_in_selected_thread'] = [rng.choice([0, 0, 1, 1, 2, 3, 4, 6]), rng.choice(['KeyboardInterrupt', 'error'])]
     if tier == 'thorough' and index < 16:
         cfg['calibrate_real_gdb'] = True     # stub fidelity (only used when no foreign-thread message occurred: the C program is single-threaded)
     return {'prop': ID, 'seed': seed, 'config': cfg, 'intents': intents}
@@ -84,6 +89,76 @@ def pseudo_stream(sim):
     return st
 
 
+def judge_after_input_fault(sc, sim, V):
+    """One gdb API call raised inside a breakpoint's stop(): that event is lost (gdb prints the error and halts, the user
+    continues).  The lost message makes names, roles and object tables undecidable, so only this is judged from there on:
+    no other exception; a libwayland connection (one incarnation of an address) is announced at most once, by a message on
+    it; no message ever produces a Closed notice; destroying an announced connection reports it closed, exactly once and
+    under the name it was announced with, destroying any other is silent; names are unique and the open flags agree."""
+    outs_by_seq = [(s, p) for s, k, p in sim.rec.events if k == 'out']
+    announced = {}      # world connection index -> name
+    closed = set()
+    events = []
+    fault_conn = None
+    for h in sim.hits:
+        outs = [L.classify(s, p) for s, p in outs_by_seq if h['seq_before'] <= s < h.get('seq_after', 1 << 60)]
+        notices = [o.notice for o in outs if o.kind == 'notice']
+        lost = h.get('injected_fault')
+        if h['exception']:
+            ci_ = h['closure'].conn if h['kind'] == 'message' else None
+            if (h['kind'] == 'message' and ci_ == fault_conn and 'RuntimeError' in h['exception'].splitlines()[-1]
+                    and ', in resolve' in h['exception']):
+                # GDB mode refuses a message that names an object it has never seen (C10); on the connection whose message
+                # the fault swallowed that is a consequence of the fault, not a further defect.  The message is lost too.
+                V.bump('tolerated_unresolvable_object_after_lost_message')
+                lost = True
+            else:
+                what = h.get('what') or ('message' if h['kind'] == 'message' else h['kind'])
+                V.add('C15/exception', h['kind'] + ':' + what + ':' + c18.trigger_of(h['exception']),
+                      'exception left stop() of %s (%s) after an injected fault in gdb.selected_thread(): %s' % (h['spec'], what, h['exception'][-1200:]))
+                continue
+        if h.get('injected_fault') and h['kind'] == 'message':
+            fault_conn = h['closure'].conn
+        ci = h['closure'].conn if h['kind'] == 'message' else h.get('conn')
+        if h['kind'] == 'message':
+            events.append('F' if h.get('injected_fault') else 'x' if lost else 'm')
+            if any(n[0] == 'Closed' for n in notices):
+                V.add('C15/open-first', 'closed-by-message', 'a message on connection #%d (%s) produced notices %r: only libwayland '
+                      'destroying a connection closes it (fault %r)' % (ci, h['closure'].brief(), notices, sc['config']['fault_in_selected_thread']))
+                break
+            news = [n for n in notices if n[0] == 'New']
+            if len(news) > 1 or (news and ci in announced):
+                V.add('C15/open-first', 'announced-twice', 'connection #%d announced again by %s: %r (was %r)' % (ci, h['closure'].brief(), news, announced.get(ci)))
+                break
+            if news:
+                announced[ci] = news[0][2]
+            elif ci not in announced and not lost:
+                V.add('C15/open-first', 'not-announced', 'message %s on a connection not yet announced produced no New notice' % h['closure'].brief())
+                break
+        else:
+            events.append('d')
+            if ci is not None and ci in announced and ci not in closed and h.get('what') == 'open':
+                closed.add(ci)
+                if notices != [('Closed', notices[0][1] if notices else None, announced[ci])]:
+                    V.add('C15/close-on-destroy', 'after-input-fault', 'destroying announced connection %s produced notices %r' % (announced[ci], notices))
+                    break
+            elif notices and not (ci is not None and ci in announced and ci not in closed):
+                V.add('C15/noisy-destroy', 'after-input-fault', 'destroying a connection that was never announced (or already closed) produced %r' % notices)
+                break
+            elif notices:
+                closed.add(ci)
+    if not V.list:
+        got = sorted((c.name(), c.is_open()) for c in sim.cm.connections())
+        want = sorted((nm, ci not in closed) for ci, nm in announced.items())
+        if got != want:
+            V.add('C15/close-on-destroy', 'connections()-after-input-fault', 'connections() = %r, expected %r' % (got, want))
+    V.bump('sessions_judged_after_input_fault')
+    key = ''.join(events) + '/st%r' % (sc['config']['fault_in_selected_thread'],)
+    return {'violations': V.list, 'counters': V.counters, 'nt_keys': [key[:300]], 'inter_key': key[:400],
+            'states': [], 'digest': sim.rec.digest(), 'canon': sim.rec.digest(True), 'sim_us': sim.clock.now_us, 'evals': 1,
+            'sample': {'config': sc['config'], 'events': key[:120]}}
+
+
 def execute(sc):
     from .. import gdbworld
     V = common.Viol()
@@ -92,6 +167,8 @@ def execute(sc):
     V.counters.update(sim.counters)
     if sim.start_exception:
         V.add('C15/exception', 'startup', sim.start_exception[-1500:])
+    if sc['config'].get('fault_in_selected_thread') is not None and any(h.get('injected_fault') for h in sim.hits):
+        return judge_after_input_fault(sc, sim, V)
     names = {ci: W.letters(k, True) for k, ci in enumerate(sim.order)}
     seen_foreign = False
     events = []
